@@ -12,8 +12,8 @@
    only under W, only after a normal end, and the Release follows immediately. *)
 From Coq Require Import List NArith Bool String.
 Import ListNotations.
-Require Import RV.Model.LockDiscipline RV.Proofs.LockDisciplineProofs RV.Proofs.C10Handlers.
-Require RV.Gen.Skeleton.
+Require Import RV.Model.LockDiscipline RV.Proofs.LockDisciplineProofs RV.Proofs.C10Handlers RV.Proofs.C10StorageMut.
+Require RV.Gen.Skeleton RV.Gen.StorageMut.
 
 (* The verified checker: for EVERY skeleton term, acceptance implies the discipline on every trace
    (all branches, early returns, exceptions at any point, any number of loop rounds). *)
@@ -73,3 +73,20 @@ Theorem C10_meta_cache : forall v cached,
   (Skeleton.etag_reread (view_is_w v) (negb cached) = true <-> (v = LWrite \/ cached = false)).
 Proof. exact c10_meta_cache_gen. Qed.
 Print Assumptions C10_meta_cache.
+
+(* The table above against the storage CODE (tie T; Gen/StorageMut.v is regenerated from radicale/storage/__init__.py and
+   radicale/storage/multifilesystem/*.py by translate/t_storagemut.py on every run): every call site of a file system
+   mutation whose path is not provably below the cache area is reachable only from operations the table classifies as
+   data writers -- which the discipline admits under the exclusive lock only (C10_shared_lock_ops) --, and the operations
+   classified "read only" reach no mutation site at all.  Holds for code that only runs on unusual storage states too
+   (clean-up of what a crashed writer left behind, repairs, migrations). *)
+Theorem C10_static_mutations :
+  (forall k site, In (k, site) StorageMut.storage_data_mutations -> sop_access k = AWrite) /\
+  (forall k site, In (k, site) StorageMut.storage_other_mutations -> sop_access k <> ARead).
+Proof. exact c10_static_mutations. Qed.
+Print Assumptions C10_static_mutations.
+
+Theorem C10_shared_lock_static : forall k site,
+  In (k, site) StorageMut.storage_data_mutations -> ~ sufficient (Some R) k.
+Proof. exact c10_shared_lock_static. Qed.
+Print Assumptions C10_shared_lock_static.
